@@ -189,6 +189,7 @@ type Machine struct {
 	access       map[raceKey]*accessRec
 	raceDetect    bool
 	noAdvanceNext bool
+	lastMarshal   Value
 	randN         int
 	nextNID       int
 	probeName     string
